@@ -50,7 +50,7 @@ def guards(cx):
         return acc
     # preconditions: the Ok return is reachable only with the right jointness
     for f, want, name in ((simple, False, "simple"), (enter, False, "enter_joint"), (leave, True, "leave_joint")):
-        cs = [s for sp, s in cx.prog.calls_out[f.key] if s.kind == "call" and sp.endswith("check_and_copy")]
+        cs = [s for sp, s in cx.prog.calls_out[f.key] if s.kind == "call" and sp == cx.sfx("Changer::check_and_copy")]
         cx.check(len(cs) == 1, name + ":copy", "%s works on a copy of the current configuration" % name)
         for c in cs:
             require(cx, c, cx.site_key(c, name + ":jointness"), "%s proceeds only if the current config is %sjoint" % (name, "" if want else "not "), joint_is(want), kill=False)
@@ -118,7 +118,8 @@ def guards(cx):
                 disp[list(l[2])[0]] = sp.split("::")[-1]
                 nz = any(x[0] == "notin" and is_f(x[1], "ConfChangeSingle.node_id") and 0 in x[2] for x in cx.guard_lits(s))
                 cx.check(nz, "apply:skip-zero:" + sp.split("::")[-1], "changes naming node 0 are skipped", s)
-    cx.check(disp == {"AddNode": "make_voter", "AddLearnerNode": "make_learner", "RemoveNode": "remove"}, "apply:dispatch", "apply dispatches AddNode/AddLearnerNode/RemoveNode to make_voter/make_learner/remove (found %s)" % disp)
+    want = {"AddNode": cx.fn("Changer::make_voter").name, "AddLearnerNode": cx.fn("Changer::make_learner").name, "RemoveNode": cx.fn("Changer::remove").name}
+    cx.check(disp == want and len(set(disp.values())) == 3, "apply:dispatch", "apply dispatches AddNode/AddLearnerNode/RemoveNode to three distinct operations (their effects are decided by CHANGER.disjointness) (found %s)" % disp)
     rets = cx.pg(apply_).returns(limit=20000)
     oks = [lits for lits, v, _ in rets if not (v[0] == "adt" and v[1].endswith("Result::Err"))]
     ok = bool(oks) and all(any(l[0] == "is" and l[2] is False and l[1][0] == "call" and l[1][1].endswith("is_empty") and contains(fld("Configuration.incoming"), l[1]) for l in lits) for lits in oks)
@@ -145,7 +146,7 @@ def disjointness(cx):
     def unconditional(f, o, wanted, name):
         """after the `id is tracked` test, every wanted set operation lies on every path to the return"""
         g = cx.pg(f)
-        tracked = lambda lits: any(l[0] == "is" and l[2] is True and l[1][0] == "call" and l[1][1].endswith("IncrChangeMap::contains") for l in lits)
+        tracked = lambda lits: any(l[0] == "is" and l[2] is True and l[1][0] == "call" and l[1][1] == cx.sfx("IncrChangeMap::contains") for l in lits)
         for k, m in wanted:
             blocks = {s.block for kk, mm, s in o if (kk, mm) == (k, m)}
             ok, ne = g.after_edge_must_pass(tracked, lambda b: b in blocks, assume=getattr(unconditional, "assume", None))
@@ -191,8 +192,8 @@ def disjointness(cx):
     cx.check(len(pushes) == 1 and contains(("enum", "raft::confchange::changer::MapChangeType", "Add"), call_args(cx, pushes[0])[1]), "init_progress:add", "a new node gets a progress entry")
     # unknown ids: make_voter/make_learner initialise, remove ignores
     for f, name in ((mv, "make_voter"), (ml, "make_learner")):
-        cs = [s for sp, s in cx.prog.calls_out[f.key] if s.kind == "call" and sp.endswith("init_progress")]
-        ok = len(cs) == 1 and cx.pg(f).guarded(cs[0].at, lambda lits: any(l[0] == "is" and l[2] is False and l[1][0] == "call" and l[1][1].endswith("IncrChangeMap::contains") for l in lits))[0]
+        cs = [s for sp, s in cx.prog.calls_out[f.key] if s.kind == "call" and sp == cx.sfx("Changer::init_progress")]
+        ok = len(cs) == 1 and cx.pg(f).guarded(cs[0].at, lambda lits: any(l[0] == "is" and l[2] is False and l[1][0] == "call" and l[1][1] == cx.sfx("IncrChangeMap::contains") for l in lits))[0]
         cx.check(ok, name + ":unknown", "%s initialises progress exactly for ids not yet tracked" % name)
 
 
